@@ -70,11 +70,14 @@ KNOWN_PREDICATES = {}
 H_A = 'h_c04a'
 # tier B routines with a Lean model (lean/NmVerif/Index/{Stack,Split,SlidingWindow,Diagonal,Where,Compress,Resize,Expand}.lean)
 MODELLED_BC = {'stack', 'hstack', 'vstack', 'dstack', 'column_stack', 'split', 'sliding_window', 'diagonal', 'diagflat',
-               'tril', 'triu', 'tri', 'eye', 'identity', 'where', 'compress', 'resize', 'expand'}
+               'tril', 'triu', 'tri', 'eye', 'identity', 'where', 'compress', 'resize', 'expand',
+               # tier C generators (lean/NmVerif/Index/Generators.lean); real-valued elements are printed as fractions by
+               # the model and compared with the relative tolerance of c04_bc.cmp_real
+               'arange', 'linspace', 'full', 'zeros', 'ones', 'full_like', 'zeros_like', 'ones_like'}
 
 
 def harness_specs(tier):
-    return [dict(name=H_A, src='h_c04a.cpp', flavour='fast')] + c04_bc.harness_specs_bc(tier)
+    return [dict(name=H_A, src='h_c04a.cpp', flavour='fast')] + c04_bc.harness_specs_bc(tier) + c04_gen.harness_specs_gen(tier)
 
 
 def iota(s, base=0):
@@ -299,6 +302,7 @@ def gen_large(tier, rng):
                    oracle=ans(np.concatenate([a, iota(s2, 1000)], axis=ax)), tags=['concatenate'] + tg)
 
 KNOWN_PREDICATES.update(c04_bc.KNOWN_PREDICATES_BC)
+KNOWN_PREDICATES.update(c04_gen.KNOWN_PREDICATES_GEN)
 
 
 def gen(tier, rng):
